@@ -4,7 +4,8 @@ indexing, arithmetic overflow asserts) reachable in the call graph from the peer
 sink/shared API) is enumerated from MIR and must be auto-proven, discharged by a named structural
 rule, or listed in the reviewed table below (API precondition / assumed invariant, one line of reason
 each). Plus: no RefCell guard is alive across an await; the PayloadChunk arms of all four
-dispatchers agree. 'Never hangs' (liveness) is not decided."""
+dispatchers agree. 'Never hangs' (liveness) is not decided. refcell (continued): while a RefCell guard is alive, no call reaches (through resolved callees and closures handed to the call) a conflicting borrow of the same cell, and no application callback (boxed dyn Fn) is invoked.
+"""
 from facts import *
 from disp import *
 import panics
